@@ -33,8 +33,8 @@ TRUSTED = [
     "and no two distinct border cells are joined by a diagonal walk (Graph/NotAdj.v::spec_diag)",
     "Core/Expr.v::eval as the meaning of the posted trees; z3 (search only) as the decision procedure for the "
     "really posted program, through the harness's own translation of trees to z3 terms",
-    "the model of the callee active_vertices_connected is the C04 development's (Graph/Avc.v); its exactness "
-    "theorem is C04's and enters not_segmenting_graph_exact as a named premise",
+    "the model of the callee active_vertices_connected and its exactness theorem avc_exact are the C04 "
+    "development's (Graph/Avc.v, AvcProofs.v); they are imported, not re-proved (tie of that model: ./check C04)",
     "exprio.py / exprio.ml serialisation of trees and solver states used by the capture comparison",
 ]
 ASSUMPTIONS = [
@@ -44,9 +44,24 @@ ASSUMPTIONS = [
     "is_active has at least num_vertices entries (shorter: IndexError, modelled); h, w >= 1 for the segmenting "
     "helpers (empty shapes / 0 vertices raise ValueError from int_array; modelled and checked)",
     "the unbounded equivalence 'diagonal forest condition <=> complement connected' (diag_equiv_statement) is not "
-    "proved; it is kernel-checked for all shapes up to the bound stated in diag_equiv_bounded and searched with z3 "
-    "beyond it (h*w <= 12 quick, 16 thorough)",
+    "proved; it is kernel-checked for all shapes with h*w <= 16 (diag_equiv_bounded; thorough tier: h*w <= 20, "
+    "Graph/NotAdjBounded20.v) and searched with z3 on the real program for h*w <= 12 (thorough 16)",
 ]
+
+def generated_obligations(ctx, proof, broken):
+    """thorough tier: the kernel-checked bound of diag_equiv is raised from h*w <= 16 to h*w <= 20
+    (Graph/NotAdjBounded20.v, ~6 min of vm_compute, not in the closure of Props/C08.v)."""
+    if not ctx.thorough:
+        return
+    proof["generated_obligations"] = proof.get("generated_obligations", 0) + 1
+    with vlib.Lock():
+        rc, out = vlib.coq_make(["theories/Graph/NotAdjBounded20.vo"], timeout=3000)
+    if rc != 0 or "Closed under the global context" not in out and "NotAdjBounded20" in out and "Axioms" in out:
+        broken.append(("proof:diag_equiv_20", out[-2000:]))
+    else:
+        proof["generated_discharged"] = proof.get("generated_discharged", 0) + 1
+        ctx.note("thorough: diag_equiv_20 (h*w <= 20) rebuilt / up to date")
+
 
 ERR = {1: "IndexError", 2: "KeyError", 3: "AssertionError", 4: "TypeError", 5: "ValueError",
        6: "RecursionError", 7: "NotImplementedError", 8: "Other"}
